@@ -165,7 +165,7 @@ func (r *run) doCall(w *worker, k int, call string) {
 		}
 		id := writeID(w.g, k)
 		p := payload(id, ln)
-		w.log.add(t0, Event{"ev": "cs", "g": w.g, "k": k, "call": call, "w": id, "len": ln})
+		w.log.add(t0, Event{"ev": "cs", "g": w.g, "k": k, "call": call, "w": id, "len": ln, "loop": false})
 		n, err := r.cut.Write(p)
 		w.log.add(t0, Event{"ev": "ce", "g": w.g, "k": k, "call": call, "cls": classify(err), "n": n, "w": id})
 	case "Handshake":
